@@ -25,6 +25,7 @@ Print Assumptions C11_single_entry_maps.
 Theorem C11_two_entries_differ :
   exists (l l' : list (list byte)), Permutation l l' /\ concat l <> concat l'.
 Proof. exists [[x01]; [x02]], [[x02]; [x01]]. split; [apply perm_swap|discriminate]. Qed.
+Print Assumptions C11_two_entries_differ.
 
 (* Repeated encodings interleaved with read-only operations: the bytes
    are those of the first encoding and the accessors do not change.
